@@ -7,16 +7,11 @@ def extract_tlc_tables(out, cases_path):
     """TABLE / REPLAY lines of a TLC run -> (tables dict, number of cases written)"""
     tables, n = {}, 0
     with open(cases_path, "w") as f:
-        for l in out.split("\n"):
-            l = l.strip()
-            m = re.match(r'^<<"TABLE", "(\w+)", "(.*)">>$', l)
-            if m:
-                tables[m.group(1)] = json.loads(tla_unescape(m.group(2)))
-                continue
-            m = re.match(r'^<<"REPLAY", "(.*)">>$', l)
-            if m:
-                f.write(tla_unescape(m.group(1)) + "\n")
-                n += 1
+        for t in tlc_tuples(out, "TABLE"):
+            tables[t[1]] = json.loads(t[2])
+        for t in tlc_tuples(out, "REPLAY"):
+            f.write(t[1] + "\n")
+            n += 1
     return tables, n
 
 
@@ -63,12 +58,7 @@ def e1(res, tier, accept):
 
 
 def relate_lines(out):
-    res = []
-    for l in out.split("\n"):
-        m = re.match(r'^<<"RELATE", (\d+), "(\w+)", "([^"]*)">>$', l.strip())
-        if m:
-            res.append((int(m.group(1)), m.group(2), m.group(3)))
-    return res
+    return [(t[1], t[2], t[3]) for t in tlc_tuples(out, "RELATE")]
 
 
 def validate_trace(res, spec, tr, classify, relation_prefix="relation:", expect_relations=False):
